@@ -39,6 +39,9 @@ func init() {
 			{ID: "C06-R16", Title: "evaluations end with the context's error", Floor: 2, Run: evaluationsEndWithTheContextError},
 			{ID: "C06-R17", Title: "threads are started by the VM", Floor: 1, Run: threadsAreStartedByTheVM},
 			{ID: "C06-R18", Title: "derived contexts come from the context given", Floor: 1, Run: derivedContextsComeFromTheParameter},
+			{ID: "C06-R19", Title: "a failed callback is not called again by a sort", Floor: 1, Run: failedCallbacksAreNotCalledAgain},
+			{ID: "C06-R20", Title: "context errors keep their identity", Floor: 5, Run: contextErrorsKeepTheirIdentity},
+			{ID: "C06-R21", Title: "the run counter only counts", Floor: 1, Run: theRunCounterOnlyCounts},
 		},
 	})
 }
